@@ -23,7 +23,7 @@ RULE = ('histories of 100-600 DjangoCache calls (add, get, set, touch, delete, i
 DISTINCT = ('cells',)
 REQUIRED = ('calls_judged', 'histories', 'value_errors_matched', 'expired_lookups', 'default_timeout_applied',
             'version_moves', 'callable_defaults', 'forever_items_after_long_jump', 'lookups_with_expire_time_or_tag',
-            'calls_with_positional_version', 'calls_with_positional_arguments', 'calls_with_tuple_keys')
+            'calls_with_positional_version', 'calls_with_positional_arguments', 'calls_with_tuple_keys', 'calls_with_explicit_retry')
 ASSUMPTIONS = ('Django itself casts the TIMEOUT parameter to int (BaseCache.__init__), so a short integer TIMEOUT is used',
                'return values the contract leaves open (set, clear) are not compared',
                'DjangoCache(directory, params) is instantiated directly (needs no configured Django settings)')
@@ -203,6 +203,11 @@ def spelled(rng, res, method, params, **extensions):
         res.count('calls_with_positional_version')
     if p > 1:
         res.count('calls_with_positional_arguments')
+    if getattr(method, '__name__', '') in ('add', 'get', 'set', 'touch', 'delete', 'incr', 'decr', 'pop') and rng.random() < 0.2:
+        # diskcache's `retry` extension: wait for a busy database or report failure - nobody else writes here, so either
+        # value must leave the outcome alone
+        extensions = dict(extensions, retry=rng.random() < 0.5)
+        res.count('calls_with_explicit_retry')
     return method(*pos, **kw, **extensions)
 
 
